@@ -118,7 +118,11 @@ def run_history(hist: dict) -> list[tuple[dict, str]]:
     loop = asyncio.new_event_loop()
     try:
         if hist.get("presync"):
-            loop.run_until_complete(fl.get_faultlog(start=0, limit=64))
+            try:
+                loop.run_until_complete(fl.get_faultlog(start=0, limit=64))
+            except Exception as x:  # noqa: BLE001  ("reading it never raises")
+                viol("read-through-raises", f"initial read-through: {type(x).__name__}: {x}", exc=type(x).__name__)
+                return out
         by_ts = lambda: {ts_str(e): e for e in model}  # noqa: E731
         reported: dict[str, dict] = {ts_str(e): e for e in model} if hist.get("presync") else {}
 
